@@ -4,6 +4,8 @@ import (
 	"bufio"
 	"bytes"
 	"context"
+	"crypto/sha256"
+	"encoding/hex"
 	"errors"
 	"fmt"
 	"io"
@@ -17,6 +19,7 @@ import (
 	"sync"
 	"sync/atomic"
 
+	"github.com/ogen-go/ogen/ogenerrors"
 	"github.com/ogen-go/ogen/simrt"
 )
 
@@ -52,7 +55,8 @@ type Fault struct {
 //	dup-query   the query parameter named Arg (or "#i": the i-th) is sent twice
 //	flip        the byte at wire offset At of the request is XORed with 0x20 (unstructured corruption)
 //	append      a re-framing intermediary forwards the request with Arg appended to the body (framing stays valid)
-//	drop-field  a re-framing intermediary loses the form field / multipart part named Arg
+//	drop-field  a re-framing intermediary loses the form field / multipart part named Arg (and, if Val is set, appends the
+//	            raw query pair Val to the request line)
 //	dup-field   a re-framing intermediary repeats the form field / multipart part named Arg
 
 type callKey struct{}
@@ -75,27 +79,32 @@ func infoFrom(ctx context.Context) *callInfo {
 
 // ServerSide is what one delivery of a request produced on the server.
 type ServerSide struct {
-	Delivered      bool   `json:"delivered"` // ServeHTTP was entered
-	ParseErr       string `json:"parse_err,omitempty"`
-	Panic          string `json:"panic,omitempty"`
-	Status         int    `json:"status"`
-	WriteHeaders   int    `json:"write_headers"` // explicit WriteHeader calls
-	Commits        int    `json:"commits"`       // times a header block was committed (must be 1)
-	Explicit       bool   `json:"explicit"`      // the server wrote something itself (WriteHeader or Write)
-	BodyBytes      int    `json:"body_bytes"`
-	WritesAfter    int    `json:"writes_after_return"`
-	WriteErrs      int    `json:"write_errs"`
-	HandlerCalls   int    `json:"handler_calls"`
-	MiddlewareOps  int    `json:"middleware_calls"`
-	ServerSaw      string `json:"server_saw,omitempty"`
-	MiddlewareSaw  string `json:"middleware_saw,omitempty"`
-	ErrBody        string `json:"err_body,omitempty"`        // start of the body of a 4xx/5xx answer (diagnostics only)
-	Middleware2Saw string `json:"middleware2_saw,omitempty"` // operation name the second middleware of the chain was handed
-	SecurityCalls  int    `json:"security_calls"`
-	Allow          string `json:"allow,omitempty"`
-	Marker         string `json:"marker,omitempty"` // the handler's marker header, if the response carries it
-	Returned       bool   `json:"returned"`
-	TempFiles      int    `json:"temp_files"` // multipart parts that ogen handed over as *os.File (spilled to disk)
+	Delivered     bool   `json:"delivered"` // ServeHTTP was entered
+	ParseErr      string `json:"parse_err,omitempty"`
+	Panic         string `json:"panic,omitempty"`
+	Status        int    `json:"status"`
+	WriteHeaders  int    `json:"write_headers"` // explicit WriteHeader calls
+	Commits       int    `json:"commits"`       // times a header block was committed (must be 1)
+	Explicit      bool   `json:"explicit"`      // the server wrote something itself (WriteHeader or Write)
+	BodyBytes     int    `json:"body_bytes"`
+	WritesAfter   int    `json:"writes_after_return"`
+	WriteErrs     int    `json:"write_errs"`
+	HandlerCalls  int    `json:"handler_calls"`
+	MiddlewareOps int    `json:"middleware_calls"`
+	ServerSaw     string `json:"server_saw,omitempty"`
+	MiddlewareSaw string `json:"middleware_saw,omitempty"`
+	ErrBody       string `json:"err_body,omitempty"` // start of the body of a 4xx/5xx answer (diagnostics only)
+	// the error handler was given a DecodeBodyError: digest of its Body, whether that Body is what this request's
+	// body reader delivered, and whether it changed while the handler held it
+	DecodeErrBody        string `json:"decode_err_body,omitempty"`
+	DecodeErrBodyForeign bool   `json:"decode_err_body_foreign,omitempty"`
+	DecodeErrBodyChanged bool   `json:"decode_err_body_changed,omitempty"`
+	Middleware2Saw       string `json:"middleware2_saw,omitempty"` // operation name the second middleware of the chain was handed
+	SecurityCalls        int    `json:"security_calls"`
+	Allow                string `json:"allow,omitempty"`
+	Marker               string `json:"marker,omitempty"` // the handler's marker header, if the response carries it
+	Returned             bool   `json:"returned"`
+	TempFiles            int    `json:"temp_files"` // multipart parts that ogen handed over as *os.File (spilled to disk)
 }
 
 type srvKey struct{}
@@ -105,6 +114,53 @@ type srvInfo struct {
 	Side *ServerSide
 	Call *callInfo
 	Idx  int // which delivery of the call this is: 0 first attempt, 1 replayed attempt, 2 duplicate
+	read *teeBody
+}
+
+// teeBody remembers what the server read from the request body (the first 256 kB).
+type teeBody struct {
+	rc  io.ReadCloser
+	buf bytes.Buffer
+}
+
+func (t *teeBody) Read(p []byte) (int, error) {
+	n, err := t.rc.Read(p)
+	if n > 0 && t.buf.Len() < 1<<18 {
+		t.buf.Write(p[:n])
+	}
+	return n, err
+}
+
+func (t *teeBody) Close() error { return t.rc.Close() }
+
+func shortSum(b []byte) string {
+	h := sha256.Sum256(b)
+	return hex.EncodeToString(h[:8])
+}
+
+// SimErrorHandler is installed as the servers' ErrorHandler: what a careful user writes - it looks at the rejected
+// body (to log it) and then answers like ogen's default handler. The body it is shown must be the body of this
+// request and must stay what it is while the handler runs.
+func SimErrorHandler(ctx context.Context, w http.ResponseWriter, r *http.Request, err error) {
+	if si := srvFrom(r.Context()); si != nil {
+		var de *ogenerrors.DecodeBodyError
+		if errors.As(err, &de) && len(de.Body) > 0 {
+			s1 := shortSum(de.Body)
+			si.Side.DecodeErrBody = s1
+			if si.read != nil {
+				got := si.read.buf.Bytes()
+				if si.read.buf.Len() < 1<<18 && !bytes.Equal(de.Body, got[:min(len(got), len(de.Body))]) {
+					si.Side.DecodeErrBodyForeign = true
+				}
+			}
+			si.St.MaybeYield()
+			si.St.MaybeYield()
+			if shortSum(de.Body) != s1 {
+				si.Side.DecodeErrBodyChanged = true
+			}
+		}
+	}
+	ogenerrors.DefaultErrorHandler(ctx, w, r, err)
 }
 
 func srvFrom(ctx context.Context) *srvInfo {
@@ -198,6 +254,15 @@ func (t *SimTransport) Do(req *http.Request) (*http.Response, error) {
 	case "mangle":
 		if mangle(req, f.Arg, f.Val) {
 			ci.Rec.fire()
+		}
+	case "drop-field", "dup-field":
+		if f.Val != "" {
+			// the same intermediary also appends a query pair (Val, raw): body fields and query parameters are
+			// different things, whatever their names
+			if req.URL.RawQuery != "" {
+				req.URL.RawQuery += "&"
+			}
+			req.URL.RawQuery += f.Val
 		}
 	case "lie-length":
 		if n, err := strconv.ParseInt(f.Arg, 10, 64); err == nil && req.Body != nil && req.Body != http.NoBody {
@@ -672,7 +737,9 @@ func (t *SimTransport) serve(clientCtx context.Context, in, out *link, side *Ser
 	sctx, cancel := context.WithCancel(context.Background())
 	defer cancel()
 	ci.srvCancel.Store(&cancel)
-	sctx = context.WithValue(sctx, srvKey{}, &srvInfo{St: st, Side: side, Call: ci, Idx: idx})
+	tee := &teeBody{rc: r.Body}
+	r.Body = tee
+	sctx = context.WithValue(sctx, srvKey{}, &srvInfo{St: st, Side: side, Call: ci, Idx: idx, read: tee})
 	r = r.WithContext(sctx)
 	r.RemoteAddr = "sim:1"
 	w := &recWriter{side: side, out: out, h: http.Header{}, method: r.Method, st: st}
